@@ -709,6 +709,9 @@ static void explore_custom(FrameBase& f, const Gram& g, const ref::LR1& L) {
                 const LexAsk& a = g_script.asks[k];
                 if (lexfail) { viol("asked-after-failure", "match() called again after it reported failure"); pos_ok = false; break; }
                 if (p >= w.size() || a.off != (int)p) { viol("asked-at-wrong-position", "match() call " + std::to_string(k) + " at offset " + std::to_string(a.off) + ", the next term starts at offset " + std::to_string(p)); pos_ok = false; break; }
+                { int l = 1, c = 1; for (int q = 0; q < a.off; ++q) { if (w[q] == '\n') { ++l; c = 1; } else ++c; }
+                  if (a.line != l || a.col != c) { viol("stale-source-point-passed-to-lexer", "match() call " + std::to_string(k) + " at offset " + std::to_string(a.off) + " was given source point [" + std::to_string(a.line) + ":" + std::to_string(a.col) + "], the term starts at [" + std::to_string(l) + ":" + std::to_string(c) + "]"); pos_ok = false; break; }
+                  if (a.verbose) { viol("wrong-options-passed-to-lexer", "match() was told verbose=true in a non-verbose parse"); pos_ok = false; break; } }
                 if (a.answer < 0) { lexfail = true; continue; }
                 toks.push_back(ref::Tok{a.answer / 64, a.off, a.answer % 64}); p += a.answer % 64; skip();
             }
@@ -731,6 +734,17 @@ static void explore_custom(FrameBase& f, const Gram& g, const ref::LR1& L) {
                     (ex.ok ? any_ok : any_fail) = true;
                     outcomes["C18"].insert(std::string(ex.ok ? "ok" : ex.lex_error ? "lexfail" : "syntax") + "-asks" + std::to_string(std::min(asked, 5)) + (ex.nerrors && ex.ok ? "-recovered" : ""));
                 } else ctr["ref_no_verdict"]++;
+            }
+            {   // the same script under a verbose parse: same asks, and the lexer is told that the parse is verbose
+                std::vector<LexAsk> plain = g_script.asks; std::vector<int> taken = g_script.taken, alts = g_script.alts;
+                g_script.begin(g.T, w.data(), w.size(), taken);
+                ParseObs rv = f.parse(w.data(), w.size(), PM_VERBOSE_OSTREAM); ctr["parses"]++;
+                if (!rv.horizon && !rv.bounds && !rv.threw) {
+                    if (g_script.asks.size() != plain.size()) viol("verbose-changes-lexer-requests", std::to_string(g_script.asks.size()) + " match() calls in the verbose parse, " + std::to_string(plain.size()) + " in the plain one");
+                    else for (size_t k = 0; k < plain.size(); ++k) { if (g_script.asks[k].off != plain[k].off) { viol("verbose-changes-lexer-requests", "different positions asked"); break; } if (!g_script.asks[k].verbose) { viol("wrong-options-passed-to-lexer", "match() was told verbose=false in a verbose parse"); break; } }
+                    if (rv.ok != ro.ok) viol("verbose-changes-outcome", "verbose parse with the same lexer answers gives another result");
+                }
+                g_script.taken = taken; g_script.alts = alts;
             }
             // next script: the last ask that still has an untried alternative
             int i = (int)g_script.taken.size() - 1;
